@@ -275,6 +275,7 @@ type c06Spec struct {
 	AbortOcc int    `json:"abort_after_read_no"`
 	Second   bool   `json:"second_initiator"`
 	LightMnt bool   `json:"light_maintenance"`
+	Raced    bool   `json:"operator_request_lands_during_the_approval_of_the_automatic_one"`
 }
 
 var c06Kinds = []string{"to", "from", "failover_manual", "auto", "worker_sloppy"}
@@ -297,6 +298,7 @@ func c06Gen(seed int64, idx int) c06Spec {
 	}
 	sp.Second = r.Intn(3) == 0
 	sp.LightMnt = r.Intn(8) == 0
+	sp.Raced = sp.Kind == "auto" && (idx/len(c06Kinds))%2 == 0
 	return sp
 }
 
@@ -314,6 +316,20 @@ func c06Run(u *Unit) {
 	u.Scenario(fmt.Sprintf("c06-%d-%s-%s", u.Idx, sp.Kind, sp.Abort), sp, opts, func(sc *Scen) {
 		s := sc.S
 		mon := newC06Monitor(sc, sp.Limit, time.Duration(sp.TimeoutS)*time.Second)
+		if sp.Raced {
+			// the operator's request is created between the manager's look at the switch key and its own filing (the
+			// cool-down read of the approval comes in between): the automatic one must be refused, not written over it
+			var once sync.Once
+			s.OnDCS(func(inst, method, path, arg, res string) {
+				if method == "Get" && path == "last_switch" {
+					once.Do(func() {
+						if fileSwitch(sc, "", hosts[1], "manual", "switchover", "operator2") {
+							sc.Cover("operator-request-raced-the-automatic-filing")
+						}
+					})
+				}
+			})
+		}
 		// MySQL-side failure schedule: the chosen statement class fails during the first K attempts
 		var fmu sync.Mutex
 		attempts := 0
